@@ -26,8 +26,10 @@ ORDER_EXPOSING_CONSUMERS = {"list", "tuple", "enumerate", "iter", "next", "zip",
 MUTATORS = {"append", "extend", "insert", "pop", "remove", "clear", "sort", "reverse", "update", "setdefault", "popitem", "add", "discard",
             "write", "truncate", "writelines", "__setitem__", "__delitem__"}
 BUFFER_READ_ONLY = {"seek", "tell", "read", "getvalue", "readline", "readlines", "read1", "readinto", "seekable", "readable", "closed", "getbuffer"}
-NONDET_CALLS = ("time.", "random.", "secrets.", "uuid.", "os.urandom", "os.getpid", "os.environ", "datetime.datetime.now", "datetime.now",
-                "datetime.datetime.today", "datetime.date.today", "datetime.datetime.utcnow")
+NONDET_CALLS = ("time.", "random.", "secrets.", "uuid.", "os.urandom", "os.getpid", "os.getppid", "os.environ", "os.times", "os.getlogin",
+                "datetime.datetime.now", "datetime.now", "datetime.datetime.today", "datetime.date.today", "datetime.datetime.utcnow",
+                "email.utils.make_msgid", "email.utils.formatdate", "email.utils.localtime", "tempfile.mktemp", "tempfile.gettempprefix",
+                "socket.gethostname", "socket.getfqdn", "platform.", "getpass.getuser", "threading.get_ident", "threading.current_thread")
 
 
 def canonical(mod, e):
@@ -412,3 +414,5 @@ TRUSTED = ["third-party parsers are deterministic functions of their input bytes
 ASSUMED_MODELS = []
 ASSUMPTIONS = ["fresh-process / hash-seed equality follows from the three obligation families only under the trusted-base assumptions; it is never executed by this check",
                "aliasing is tracked by names rooted at `self` (constructor calls and copies are fresh)", "effect/qualifier obligations are decided by AST analysis (back end 'dataflow'), not SMT"]
+
+REPLAY_UNKNOWN = True    # undecided / out-of-subset items are searched natively (replay) before being reported UNDECIDED
